@@ -676,6 +676,31 @@ def opPick (j : Json) : R Json := do
     | _ => throw "pick = [candidates, choice]"
   pure (Json.mkObj [("ok", Json.arr res.toArray)])
 
+open Edxml.Miner.Construct in
+/-- `GraphConstructor.add` over a sequence of events (each with the event type definition in force): node ids the way
+`EventObjectNode.id` writes them, and the relation links as pairs of node ids. -/
+def opConstruct (j : Json) : R Json := do
+  let evs ← (← fldArr j "events").mapM fun e => do
+    let et ← fld e "et"
+    let props ← (← fldArr et "props").mapM fun p => do
+      pure ({ name := ← fldStr p "name", ot := ← fldStr p "ot", assocs := ← fldStrs p "assocs" } : PropDef)
+    let rels ← (← fldArr et "rels").mapM fun r => do
+      let kind ← (match ← fldStr r "kind" with
+        | "inter" => pure RelKind.inter
+        | "intra" => pure RelKind.intra
+        | "other" => pure RelKind.other
+        | k => throw s!"relation kind {k}")
+      pure ({ kind := kind, source := ← fldStr r "source", target := ← fldStr r "target", sc := ← fldStr r "sc", tc := ← fldStr r "tc" } : RelDef)
+    let ev ← (← fldArr e "props").mapM fun kv => do
+      match ← arr kv with
+      | [k, vs] => pure ((← str k), (← (← arr vs).mapM str))
+      | _ => throw "property = [name, [objects]]"
+    pure (({ props := props, rels := rels } : EtDef), (ev : Ev))
+  let idOf (n : NodeId) : String := s!"obj:{n.event}:{n.prop}:{n.concept}:{n.value}"
+  let nodes := (graphNodes 0 evs).map fun n => Json.str (idOf n)
+  let links := (graphLinks 0 evs).map fun l => Json.arr #[Json.str (idOf l.src), Json.str (idOf l.dst)]
+  pure (Json.mkObj [("nodes", Json.arr nodes.toArray), ("links", Json.arr links.toArray)])
+
 open Edxml.Transcode in
 partial def rvalOf (j : Json) : R RVal :=
   match j with
@@ -840,6 +865,7 @@ def dispatch (j : Json) : R Json := do
   | "miner" => opMiner j
   | "search" => opSearch j
   | "pick" => opPick j
+  | "construct" => opConstruct j
   | "mediator" => opMediator j
   | "lookup" => opLookup j
   | "template" => opTemplate j
